@@ -32,6 +32,17 @@ COMPONENTS = {
 NAMES = ["ma", "mb", "mc", "md", "me", "mf", "mg", "mh", "mi", "mj", "mk", "ml"]
 
 
+def insert_decls(text, extra):
+    """put extra declarations after the leading marker lines of a file (inner skip attribute, @generated comment,
+    the numbered filler of the after-limit marker), so that the markers keep their line numbers"""
+    lines = text.split("\n")
+    k = 0
+    while k < len(lines) and (lines[k].startswith("#![rustfmt::skip]") or lines[k].startswith("// @generated") or
+                              (lines[k].startswith("// ") and lines[k][3:4].isdigit())):
+        k += 1
+    return "\n".join(lines[:k] + extra.rstrip("\n").split("\n") + lines[k:])
+
+
 class Model:
     def __init__(self):
         self.files = {}      # rel -> text
@@ -75,7 +86,7 @@ def generate(rng, tier):
     m = Model()
     base = "c"
     feats = set(rng.subset(["modrs", "path", "inline", "cfg_if", "cfg_match", "cfg_attr_path", "decoys", "skipmod",
-                            "innerskip", "ignore", "generated", "twice", "stemdir", "adversarial"], 45))
+                            "innerskip", "ignore", "generated", "twice", "stemdir", "adversarial", "symlinkmod"], 45))
     lane = rng.choice(["normal"] * 7 + ["skip_children", "stdin", "fault"])
     if lane == "fault":
         feats.discard("adversarial")  # a decoy at the fallback location would make a missing module resolvable
@@ -239,6 +250,18 @@ def generate(rng, tier):
         for f in m.status:
             if f != root and m.status[f] == "E":
                 m.status[f] = "D"
+    # two modules sharing one module file through a symbolic link, each with its own child next to it
+    if "symlinkmod" in feats and root_status == "E" and lane != "stdin":
+        rd = os.path.dirname(root)
+        pa, pb = os.path.join(childdir, "sla"), os.path.join(childdir, "slb")
+        m.files[os.path.join(pa, "mod.rs")] = "mod slin;\n" + body()
+        m.files[os.path.join(pa, "slin.rs")] = body()
+        m.files[os.path.join(pb, "mod.rs")] = {"symlink": "../sla/mod.rs"}
+        m.files[os.path.join(pb, "slin.rs")] = body()
+        m.files[root] = insert_decls(m.files[root], "mod sla;\nmod slb;\n")
+        for f in (os.path.join(pa, "mod.rs"), os.path.join(pa, "slin.rs"), os.path.join(pb, "slin.rs")):
+            m.status[f] = "E"
+        m.feats.add("symlinkmod")
     # a file reached twice (same spelling / different spelling)
     twice = None
     if "twice" in feats and leafs and root_status == "E":
@@ -250,7 +273,7 @@ def generate(rng, tier):
                 extra = '#[path = "%s"]\nmod tw_a;\n#[path = "%s"]\nmod tw_b;\n' % (relp, relp)
             else:
                 extra = '#[path = "%s"]\nmod tw_a;\n#[path = "./%s"]\nmod tw_b;\n' % (relp, os.path.join("..", os.path.basename(rootdir) or base, relp) if rootdir else relp)
-            m.files[root] = root_header + extra + m.files[root][len(root_header):]
+            m.files[root] = insert_decls(m.files[root], extra)
             twice = {"file": t, "how": how}
             m.feats.add("twice-" + how)
     # ignore patterns
